@@ -247,7 +247,7 @@ func checkC06(c *run.Ctx) {
 			})
 		}
 		twin := util.DeepCopy(steps)
-		repo := "git@github.com:org/repo.git"
+		repo := []string{"git@github.com:org/repo.git", "", "https://example.com/org/repo"}[mix(i, 2, 3)] // the empty URL is a URL like any other: still one of the five mandatory fields
 		var serr error
 		if pi := run.Guard(func() { serr = signature.SignSteps(bg, steps, kp.Signer, repo, signature.WithEnv(penv)) }); pi != nil {
 			c.Violation(id, map[string]any{"what": "SignSteps panicked: " + pi.Value, "stack": pi.Stack})
